@@ -14,6 +14,7 @@ From Bnum.Model Require Import DigitPrims LoopPrims Digit Core Shift AddSub Mul 
 From Bnum.Model Require Div.
 From Bnum.Generated Require Import DigitGen DivGen.
 From Bnum.Proofs Require Import DigitTie ImpLemmas DivAux DivKnuth.
+From Bnum.Proofs Require Div.
 
 Definition rrep (u : Z * list Z) : list Z := fst u :: snd u.
 Definition mrep (m : Z * list Z) : list Z := snd m ++ [fst m].
@@ -411,4 +412,270 @@ Proof.
       rewrite nth_mapi by (unfold ZERO; rewrite repeat_length; lia).
       rewrite shr_loop_nth by (unfold rrep; cbn [length]; lia).
       destruct (Z.ltb_spec 0 s); [lia|]. cbn [Nat.add]. reflexivity.
+Qed.
+
+(* ================= structural facts about the model (no arithmetic of Algorithm D is needed) ================= *)
+
+Lemma dsub_ok a b : b <= a -> dsub a b = Done (a - b).
+Proof. intros H. unfold dsub. destruct (Z.ltb_spec a b); [lia | reflexivity]. Qed.
+
+Lemma shl_internal_wf w n v s : 0 < w -> wf w n v -> 0 <= s < w -> wf w n (shl_internal w v s).
+Proof.
+  intros Hw [Hl Hf] Hs. unfold shl_internal. cbv zeta. rewrite Z.div_small, Z.mod_small by lia.
+  change (Z.to_nat 0) with 0%nat. rewrite Nat.sub_0_r, firstn_all. cbn [repeat app].
+  destruct (Z.eqb_spec s 0) as [->|Hne].
+  - rewrite firstn_all. split; assumption.
+  - destruct (shl_bits_spec w s ltac:(lia) v 0 Hf) as (co & Hco & Hwf & Hval).
+    { pose proof (pow2_pos s ltac:(lia)). lia. }
+    rewrite firstn_all' by (destruct Hwf; lia). rewrite Hl in Hwf. exact Hwf.
+Qed.
+
+Lemma leading_zeros_range w x : 0 < x < B w -> 0 <= u_leading_zeros w x < w.
+Proof. intros Hx. destruct (Div.bitlen_bounds w x Hx) as [H1 _]. unfold u_leading_zeros. lia. Qed.
+
+Lemma div_rem_wide_digits w lo hi rhs : 0 < w ->
+  digit_ok w (fst (div_rem_wide w lo hi rhs)) /\ digit_ok w (snd (div_rem_wide w lo hi rhs)).
+Proof.
+  intros Hw. unfold div_rem_wide, digit_ok. cbn [fst snd]. pose proof (B_pos w ltac:(lia)).
+  split; apply Z.mod_pos_bound; lia.
+Qed.
+
+Lemma tuple_gt_pos w q v2 u2 r : 0 < w -> 0 <= q -> 0 <= r -> 0 <= u2 ->
+  Div.tuple_gt (widening_mul w q v2) (u2, r) = true -> 1 <= q.
+Proof.
+  intros Hw Hq Hr Hu2 H. destruct (Z.eq_dec q 0) as [->|]; [|lia]. exfalso.
+  pose proof (B_pos w ltac:(lia)) as HB.
+  unfold widening_mul, Div.tuple_gt in H. cbv zeta in H. cbn [fst snd] in H.
+  rewrite Z.mul_0_l, Z.mod_0_l, Z.div_0_l in H by lia.
+  destruct (Z.ltb_spec r 0); [lia|]. destruct (Z.ltb_spec u2 0); [lia|].
+  rewrite andb_false_r in H. discriminate.
+Qed.
+
+Lemma mul_by_zero w : forall v, Div.mul_digit_loop w v 0 0 = repeat 0 (S (length v)).
+Proof.
+  induction v as [|d r IH]; [reflexivity|]. cbn [Div.mul_digit_loop length repeat].
+  unfold carrying_mul. rewrite Z.mul_0_r. cbn [Z.add]. rewrite Zmod_0_l, Zdiv_0_l, Zmod_0_l.
+  rewrite IH. reflexivity.
+Qed.
+
+Lemma sub_zeros w : 0 <= w -> forall a k, Forall (digit_ok w) a -> (length a <= k)%nat ->
+  sub_loop w a (repeat 0 k) false = (a, false).
+Proof.
+  intros Hw. induction a as [|x a IH]; intros k Fa Hk; [reflexivity|].
+  destruct k as [|k]; [cbn [length] in Hk; lia|]. inversion Fa as [|? ? Hx Fa']; subst.
+  cbn [repeat sub_loop]. unfold borrowing_sub, u_ovf_sub. rewrite Z.sub_0_r.
+  unfold digit_ok in Hx. rewrite Z.mod_small by lia.
+  destruct (Z.ltb_spec x 0); [lia|]. rewrite IH by (cbn [length] in Hk; auto; lia). reflexivity.
+Qed.
+
+Lemma sub_zero_no_borrow w N U v j n : 0 <= w -> Forall (digit_ok w) U -> length v = N -> (n <= N)%nat ->
+  snd (Div.Remainder_sub w U (Div.Mul_new w v 0) j n) = false.
+Proof.
+  intros Hw FU Hv Hn. unfold Div.Remainder_sub, Div.Mul_new. rewrite mul_by_zero, firstn_repeat.
+  rewrite sub_zeros; [reflexivity | exact Hw | apply Forall_firstn, Forall_skipn; exact FU |].
+  rewrite firstn_length. lia.
+Qed.
+
+Lemma sub_loop_digits w : 0 < w -> forall a b c, Forall (digit_ok w) (fst (sub_loop w a b c)).
+Proof.
+  intros Hw. pose proof (B_pos w ltac:(lia)) as HB.
+  induction a as [|x a IH]; intros b c; [constructor|]. destruct b as [|y b]; [constructor|].
+  cbn [sub_loop]. destruct (borrowing_sub w x y c) as [s c1] eqn:E.
+  specialize (IH b c1). destruct (sub_loop w a b c1) as [r cf]. cbn [fst] in *. constructor; [|exact IH].
+  unfold borrowing_sub, u_ovf_sub in E. destruct c; inversion E; unfold digit_ok; apply Z.mod_pos_bound; lia.
+Qed.
+
+Lemma add_loop_digits w : 0 < w -> forall a b c, Forall (digit_ok w) (fst (add_loop w a b c)).
+Proof.
+  intros Hw. pose proof (B_pos w ltac:(lia)) as HB.
+  induction a as [|x a IH]; intros b c; [constructor|]. destruct b as [|y b]; [constructor|].
+  cbn [add_loop]. destruct (carrying_add w x y c) as [s c1] eqn:E.
+  specialize (IH b c1). destruct (add_loop w a b c1) as [r cf]. cbn [fst] in *. constructor; [|exact IH].
+  unfold carrying_add, u_ovf_add in E. destruct c; inversion E; unfold digit_ok; apply Z.mod_pos_bound; lia.
+Qed.
+
+Lemma Remainder_sub_digits w U M j n : 0 < w -> Forall (digit_ok w) U ->
+  Forall (digit_ok w) (fst (Div.Remainder_sub w U M j n)).
+Proof.
+  intros Hw FU. unfold Div.Remainder_sub.
+  pose proof (sub_loop_digits w Hw (firstn (S n) (skipn j U)) (firstn (S n) M) false) as H.
+  destruct (sub_loop w (firstn (S n) (skipn j U)) (firstn (S n) M) false) as [win' bo]. cbn [fst] in *.
+  apply Forall_app. split; [apply Forall_firstn; exact FU|].
+  apply Forall_app. split; [exact H | apply Forall_skipn; exact FU].
+Qed.
+
+Lemma set_nth_digits w k U : 0 < w -> Forall (digit_ok w) U ->
+  Forall (digit_ok w) (set_nth k (fun d => (d + 1) mod B w) U).
+Proof.
+  intros Hw FU. pose proof (B_pos w ltac:(lia)) as HB. unfold set_nth.
+  apply Forall_app. split; [apply Forall_firstn; exact FU|].
+  pose proof (Forall_skipn _ k U FU) as Hs. destruct (skipn k U) as [|d r]; [constructor|].
+  inversion Hs; subst. constructor; [unfold digit_ok; apply Z.mod_pos_bound; lia | assumption].
+Qed.
+
+Lemma Remainder_add_digits w U v j n : 0 < w -> Forall (digit_ok w) U ->
+  Forall (digit_ok w) (Div.Remainder_add w U v j n).
+Proof.
+  intros Hw FU. unfold Div.Remainder_add.
+  pose proof (add_loop_digits w Hw (firstn n (skipn j U)) (firstn n v) false) as H.
+  destruct (add_loop w (firstn n (skipn j U)) (firstn n v) false) as [win' co]. cbn [fst] in *.
+  assert (F : Forall (digit_ok w) (firstn j U ++ win' ++ skipn (j + n) U)).
+  { apply Forall_app. split; [apply Forall_firstn; exact FU|].
+    apply Forall_app. split; [exact H | apply Forall_skipn; exact FU]. }
+  destruct co; [apply set_nth_digits; assumption | exact F].
+Qed.
+
+Lemma upd_as_list_set j x q : (j < length q)%nat -> Div.upd j x q = list_set q j x.
+Proof. intros Hj. unfold Div.upd. apply set_nth_as_list_set. exact Hj. Qed.
+
+(* ================= the whole function =================
+   Preconditions: only what makes the code total — the divisor's digit n-1 is its (non-zero) top digit as far as the
+   normalising shift is concerned, 2 <= n, and the dividend has at least n significant digits (m = ldi + 1 - n does not
+   underflow).  No arithmetic fact about Algorithm D (u >= v, the quotient-estimate bounds, ...) is needed: the two
+   `q_hat -= 1` of D3 cannot underflow because tuple_gt(0 * v, _) is false, the one of D5 because subtracting 0 * v does
+   not borrow.  The dispatcher's call (divgen_basecase_callsite below) satisfies them. *)
+Theorem divgen_basecase w N a v n : 0 < w -> wf w N a -> wf w N v -> (2 <= n)%nat ->
+  (n <= Div.last_digit_index a + 1)%nat -> Div.nth_d (n - 1) v <> 0 ->
+  forall fuel, (S N <= fuel)%nat ->
+  DivGen.basecase_div_rem w (Z.of_nat N) fuel a v (Z.of_nat n) = Done (Div.basecase_div_rem w a v n).
+Proof.
+  intros Hw Ha Hv Hn2 Hldi Htop fuel Hf.
+  assert (Hw0 : 0 <= w) by lia. pose proof (B_pos w Hw0) as HB.
+  destruct (Div.ldi_bounds w N a Hw0 Ha) as (_ & HkN & _).
+  assert (HN : (Div.last_digit_index a < N)%nat).
+  { destruct HkN as [H|H]; [exact H|]. subst N. destruct Ha as [Ha _]. destruct a; [|discriminate].
+    cbn [Div.last_digit_index] in Hldi. lia. }
+  clear HkN. pose proof Ha as [Hla Fa]. pose proof Hv as [Hlv Fv].
+  unfold DivGen.basecase_div_rem, Div.basecase_div_rem. cbv zeta. rewrite Hla, Nat2Z.id.
+  set (ldi := Div.last_digit_index a) in *.
+  rewrite usub_ok by lia. cbn [bind].
+  replace (Z.of_nat ldi + 1 - Z.of_nat n) with (Z.of_nat (ldi + 1 - n)) by lia.
+  set (m := (ldi + 1 - n)%nat).
+  rewrite usub_ok by lia. cbn [bind]. replace (Z.of_nat n - 1) with (Z.of_nat (n - 1)) by lia.
+  rewrite arr_get_nat by lia. cbn [bind]. unfold Div.nth_d in *.
+  assert (Hbt : 0 < nth (n - 1) v 0 < B w).
+  { pose proof (Forall_nth_Z _ v (n - 1) Fv ltac:(lia)) as H. unfold digit_ok in H. lia. }
+  pose proof (leading_zeros_range w _ Hbt) as Hs.
+  set (s := u_leading_zeros w (nth (n - 1) v 0)) in *.
+  pose proof (shl_internal_wf w N v s Hw Hv Hs) as [Hlv' Fv'].
+  set (v' := shl_internal w v s) in *.
+  rewrite arr_get_nat by lia. cbn [bind].
+  rewrite usub_ok by lia. cbn [bind]. replace (Z.of_nat n - 2) with (Z.of_nat (n - 2)) by lia.
+  rewrite arr_get_nat by lia. cbn [bind].
+  set (v1 := nth (n - 1) v' 0). set (v2 := nth (n - 2) v' 0).
+  assert (Hv1 : digit_ok w v1) by (apply Forall_nth_Z; [assumption | lia]).
+  assert (Hv2 : digit_ok w v2) by (apply Forall_nth_Z; [assumption | lia]).
+  destruct (gen_Remainder_new w N fuel a s Ha ltac:(lia) Hs) as (u0 & Hu0 & Hr0).
+  rewrite Hu0. cbn [bind].
+  destruct (Remainder_new_spec w N a s Hw ltac:(lia) Ha Hs) as [[Hlu0 Fu0] _]. rewrite <- Hr0 in *.
+  replace (Z.of_nat m + 1) with (Z.of_nat (m + 1)) by lia.
+  apply while_count_bind with (n := (m + 1)%nat) (k := 0%nat)
+    (Inv := fun c '(q, j, u) =>
+       j = Z.of_nat (m + 1 - c) /\ (c <= m + 1)%nat /\ length q = N /\ length (snd u) = N /\
+       Forall (digit_ok w) (rrep u) /\
+       Div.knuth_loop w (m + 1) n v' v1 v2 (rrep u0) (ZERO N) = Div.knuth_loop w (m + 1 - c) n v' v1 v2 (rrep u) q).
+  - (* one iteration *)
+    intros c [[q j] u] (-> & Hc & Hlq & Hlu & Fu & Heq) Hcond.
+    rewrite gtb_of_nat_0 in Hcond. apply Nat.ltb_lt in Hcond. split; [lia|].
+    destruct (m + 1 - c)%nat as [|j'] eqn:Ej; [lia|].
+    rewrite usub_ok by lia. cbn [bind]. replace (Z.of_nat (S j') - 1) with (Z.of_nat j') by lia.
+    rewrite <- !Nat2Z.inj_add. rewrite gen_Remainder_digit by lia. cbn [bind].
+    cbn [Div.knuth_loop] in Heq. cbv zeta in Heq.
+    set (qh := Div.knuth_qhat w (rrep u) j' n v1 v2) in *.
+    (* the q_hat block *)
+    match goal with |- context [bind (if nth (j' + n) (rrep u) 0 <? v1 then ?X else ?Y) _] =>
+      assert (Hblock : (if nth (j' + n) (rrep u) 0 <? v1 then X else Y) = Done qh /\ digit_ok w qh) end.
+    { unfold qh, Div.knuth_qhat, Div.nth_d. cbv zeta.
+      assert (D0 : digit_ok w (nth (j' + n) (rrep u) 0)) by (apply Forall_nth_Z; [assumption | unfold rrep; cbn [length]; lia]).
+      assert (D1 : digit_ok w (nth (j' + n - 1) (rrep u) 0)) by (apply Forall_nth_Z; [assumption | unfold rrep; cbn [length]; lia]).
+      assert (D2 : digit_ok w (nth (j' + n - 2) (rrep u) 0)) by (apply Forall_nth_Z; [assumption | unfold rrep; cbn [length]; lia]).
+      destruct (Z.ltb_spec (nth (j' + n) (rrep u) 0) v1) as [Hlt|Hge].
+      2:{ split; [reflexivity|]. unfold digit_ok, u_max. lia. }
+      rewrite usub_ok by lia. cbn [bind]. replace (Z.of_nat (j' + n) - 1) with (Z.of_nat (j' + n - 1)) by lia.
+      rewrite gen_Remainder_digit by lia. cbn [bind].
+      rewrite tie_div_rem_wide by assumption.
+      pose proof (div_rem_wide_digits w (nth (j' + n - 1) (rrep u) 0) (nth (j' + n) (rrep u) 0) v1 Hw) as [Dq Dr].
+      destruct (div_rem_wide w (nth (j' + n - 1) (rrep u) 0) (nth (j' + n) (rrep u) 0) v1) as [q0 r0].
+      cbn [fst snd] in Dq, Dr.
+      rewrite usub_ok by lia. cbn [bind]. replace (Z.of_nat (j' + n) - 2) with (Z.of_nat (j' + n - 2)) by lia.
+      rewrite gen_Remainder_digit by lia. cbn [bind].
+      rewrite tie_widening_mul by assumption. rewrite gen_tuple_gt. cbn [bind].
+      unfold digit_ok in Dq, Dr, D2, Hv1.
+      destruct (Div.tuple_gt (widening_mul w q0 v2) (nth (j' + n - 2) (rrep u) 0, r0)) eqn:T1.
+      2:{ split; [reflexivity | exact Dq]. }
+      pose proof (tuple_gt_pos w q0 v2 (nth (j' + n - 2) (rrep u) 0) r0 Hw ltac:(lia) ltac:(lia) ltac:(lia) T1) as Hq1.
+      rewrite dsub_ok by lia. cbn [bind]. unfold dg_checked_add.
+      destruct (Z.ltb_spec (r0 + v1) (B w)) as [Hr|Hr].
+      2:{ split; [reflexivity | unfold digit_ok; lia]. }
+      rewrite tie_widening_mul by (try assumption; unfold digit_ok; lia). rewrite gen_tuple_gt. cbn [bind].
+      destruct (Div.tuple_gt (widening_mul w (q0 - 1) v2) (nth (j' + n - 2) (rrep u) 0, r0 + v1)) eqn:T2.
+      2:{ split; [reflexivity | unfold digit_ok; lia]. }
+      pose proof (tuple_gt_pos w (q0 - 1) v2 (nth (j' + n - 2) (rrep u) 0) (r0 + v1) Hw ltac:(lia) ltac:(lia) ltac:(lia) T2) as Hq2.
+      rewrite dsub_ok by lia. cbn [bind]. split; [reflexivity | unfold digit_ok; lia]. }
+    destruct Hblock as [Hblock Dqh]. rewrite Hblock. cbn [bind]. clear Hblock.
+    (* D4: multiply and subtract *)
+    destruct (gen_Mul_new w N fuel v' qh Hw (conj Hlv' Fv') Dqh ltac:(lia)) as (mm & Hmm & Hlmm & Hrmm).
+    rewrite Hmm. cbn [bind].
+    destruct (gen_Remainder_sub w N fuel u mm j' n Hlu Hlmm ltac:(lia) ltac:(lia)) as (u1 & Hs1 & Hlu1 & Hr1).
+    rewrite Hs1. cbn [bind]. rewrite Hrmm in *.
+    pose proof (Remainder_sub_digits w (rrep u) (Div.Mul_new w v' qh) j' n Hw Fu) as Fu1.
+    pose proof (sub_zero_no_borrow w N (rrep u) v' j' n Hw0 Fu Hlv' ltac:(lia)) as Hnb.
+    destruct (Div.Remainder_sub w (rrep u) (Div.Mul_new w v' qh) j' n) as [u1m ov] eqn:Es.
+    cbn [fst snd] in Hr1, Fu1 |- *. subst u1m.
+    destruct ov.
+    + (* D5/D6: borrow, add back *)
+      assert (Hq1 : 1 <= qh).
+      { destruct (Z.eq_dec qh 0) as [E0|]; [|unfold digit_ok in Dqh; lia].
+        rewrite E0 in Es. rewrite Es in Hnb. discriminate. }
+      rewrite dsub_ok by lia. cbn [bind].
+      destruct (gen_Remainder_add w N fuel u1 v' j' n Hlu1 Hlv' ltac:(lia) ltac:(lia)) as (u2 & Ha2 & Hlu2 & Hr2).
+      rewrite Ha2. cbn [bind]. rewrite arr_set_nat by lia. cbn [bind].
+      split; [f_equal; lia|]. split; [lia|]. split; [rewrite list_set_length; exact Hlq|]. split; [exact Hlu2|].
+      split; [rewrite Hr2; apply Remainder_add_digits; assumption|].
+      rewrite Heq. replace (m + 1 - S c)%nat with j' by lia. rewrite Hr2, upd_as_list_set by lia. reflexivity.
+    + rewrite arr_set_nat by lia. cbn [bind].
+      split; [f_equal; lia|]. split; [lia|]. split; [rewrite list_set_length; exact Hlq|]. split; [exact Hlu1|].
+      split; [exact Fu1|].
+      rewrite Heq. replace (m + 1 - S c)%nat with j' by lia. rewrite upd_as_list_set by lia. reflexivity.
+  - (* after the loop: D8 unnormalise *)
+    intros c [[q j] u] (-> & Hc & Hlq & Hlu & Fu & Heq) Hcond.
+    rewrite gtb_of_nat_0 in Hcond. apply Nat.ltb_ge in Hcond.
+    replace (m + 1 - c)%nat with 0%nat in Heq by lia. cbn [Div.knuth_loop] in Heq.
+    rewrite gen_Remainder_shr by (try assumption; lia). cbn [bind]. rewrite Heq. reflexivity.
+  - split; [f_equal; lia|]. split; [lia|]. split; [apply repeat_length|]. split; [|split; [exact Fu0|]].
+    + unfold rrep in Hlu0. cbn [length] in Hlu0. lia.
+    + rewrite Nat.sub_0_r. reflexivity.
+  - lia.
+Qed.
+
+(* the externally tied callee unchecked_shl_internal is called within the range its tie (Proofs/LoopsTieC05.v:
+   loops_unchecked_shl_internal, 0 <= rhs < BITS) is stated for *)
+Lemma divgen_shl_amount_in_range w N v n : 0 < w -> wf w N v -> (1 <= n <= N)%nat -> Div.nth_d (n - 1) v <> 0 ->
+  0 <= u_leading_zeros w (Div.nth_d (n - 1) v) < bits w N.
+Proof.
+  intros Hw [Hlv Fv] Hn Htop. unfold Div.nth_d in *.
+  assert (Hbt : 0 < nth (n - 1) v 0 < B w).
+  { pose proof (Forall_nth_Z _ v (n - 1) Fv ltac:(lia)) as H. unfold digit_ok in H. lia. }
+  pose proof (leading_zeros_range w _ Hbt) as Hs. unfold bits. nia.
+Qed.
+
+(* the call site in div_rem_unchecked (src/buint/checked.rs):
+     match self.cmp(&rhs) { .. Ordering::Greater => { let ldi = rhs.last_digit_index();
+                                                       if ldi == 0 { .. } else { self.basecase_div_rem(rhs, ldi + 1) } } } *)
+Theorem divgen_basecase_callsite w N a b : 0 < w -> wf w N a -> wf w N b ->
+  ucmp a b = Gt -> Div.last_digit_index b <> 0%nat ->
+  forall fuel, (S N <= fuel)%nat ->
+  DivGen.basecase_div_rem w (Z.of_nat N) fuel a b (Z.of_nat (Div.last_digit_index b + 1)) =
+  Done (Div.basecase_div_rem w a b (Div.last_digit_index b + 1)).
+Proof.
+  intros Hw Ha Hb Hcmp Hk0 fuel Hf. assert (Hw0 : 0 <= w) by lia.
+  destruct (Div.ldi_shape w N b Hw0 Hb) as [(E & _) | (blo & btop & Eb & Hlblo & Hbnz & Hk)]; [contradiction|].
+  apply divgen_basecase; try assumption; try lia.
+  - rewrite (ucmp_spec w N a b Hw0 Ha Hb) in Hcmp. apply Z.compare_gt_iff in Hcmp.
+    destruct (Div.ldi_bounds w N a Hw0 Ha) as (HAlt & _ & _).
+    destruct (Div.ldi_bounds w N b Hw0 Hb) as (_ & _ & [Hb0|Hble]); [contradiction|].
+    destruct (Nat.le_gt_cases (Div.last_digit_index b + 1) (Div.last_digit_index a + 1)) as [Hle|Hgt]; [exact Hle|].
+    exfalso. pose proof (Mod_le w (S (Div.last_digit_index a)) (Div.last_digit_index b) Hw0 ltac:(lia)). lia.
+  - replace (Div.last_digit_index b + 1 - 1)%nat with (Div.last_digit_index b) by lia.
+    rewrite Eb at 2. rewrite nth_d_app by (symmetry; exact Hlblo). exact Hbnz.
 Qed.
